@@ -13,6 +13,10 @@ TreeSelWide == { [kind |-> "ver", var |-> "python_version", op |-> ">=", rel |->
                  [kind |-> "str", var |-> "os_name", op |-> "!=", lit |-> <<"a">>, rev |-> FALSE],
                  [kind |-> "str", var |-> "os_name", op |-> "!=", lit |-> <<"b">>, rev |-> FALSE],
                  [kind |-> "str", var |-> "os_name", op |-> "in", lit |-> <<"a", "b">>, rev |-> FALSE],
+                 \* a one-segment python_version operand next to python_full_version atoms (parse-time folding normalises it),
+                 \* and a `not in` whose literal contains the `!=` literals above
+                 [kind |-> "ver", var |-> "python_version", op |-> ">", rel |-> <<3>>, rev |-> FALSE],
+                 [kind |-> "str", var |-> "os_name", op |-> "not in", lit |-> <<"a", "b">>, rev |-> FALSE],
                  [kind |-> "extra", op |-> "==", name |-> [cls |-> 2, sp |-> 1], rev |-> FALSE] }
 TreeSelQuick == { [kind |-> "ver", var |-> "python_version", op |-> ">=", rel |-> <<3, 8>>, rev |-> FALSE],
                   [kind |-> "ver", var |-> "python_full_version", op |-> "<", rel |-> <<3, 10>>, rev |-> TRUE],
